@@ -70,6 +70,14 @@ Theorem C14_from_iter_bytes : forall ops,
   try_from_bytes (to_bytes ops) = Ok (mapped_of_ops ops).
 Proof. exact from_iter_bytes. Qed.
 
+(* Mapping composes: the concatenation of two serialised programs maps to the mapped form of the
+   concatenated program, which reads back as that program. *)
+Theorem C14_mapped_concat : forall a b,
+  Forall well_formed_op a -> Forall well_formed_op b ->
+  try_from_bytes (to_bytes a ++ to_bytes b) = Ok (mapped_of_ops (a ++ b)) /\
+  mapped_ops (mapped_of_ops (a ++ b)) = Ok (a ++ b).
+Proof. exact mapped_concat. Qed.
+
 (* Reading the collected value back gives the operations it was built from. *)
 Theorem C14_from_iter_ops : forall ops,
   Forall well_formed_op ops ->
